@@ -127,6 +127,7 @@ type checkRun struct {
 	problems  []string // inconclusive / broken reasons (exit 2)
 	violLines []string
 	knownLines []string
+	knownSeen  map[string]bool
 	nviol     int
 	traces    int
 	seed      int64
@@ -296,6 +297,14 @@ func (cr *checkRun) runHarness(h H, native bool) {
 			}
 		}
 		if ke != nil && ke.Kind == "known" {
+			if cr.knownSeen == nil {
+				cr.knownSeen = map[string]bool{}
+			}
+			if cr.knownSeen[id] {
+				rep.Known = append(rep.Known, id)
+				continue
+			}
+			cr.knownSeen[id] = true
 			cr.knownLines = append(cr.knownLines, fmt.Sprintf("KNOWN-FINDING: %s witness=%s%s", ke.Text, compactJSON(kv.Inputs), confirmed))
 			rep.Known = append(rep.Known, id)
 		} else {
